@@ -50,6 +50,8 @@ func rulesC03(c *Ctx) {
 	c03Stats(c)
 	c03Metrics(c)
 	c03MetricsViews(c)
+	// "stays open for exactly the … computed delay": the delay function is given the failing result (executor side)
+	c04Pairing(c)
 	c03Clock(c)
 	c04RecordInternals(c)
 	c04HalfOpenPermits(c)
